@@ -434,7 +434,9 @@ def run_history(case, skip=None):
                 rep.viol.append(('C15', 'C15:state-changed(%s):%s:%s' % (_diff_where(pre, post), type(exc).__name__, sigtail), desc))
             if eff.cls == CLASH and not (isinstance(exc, RuntimeError) and not isinstance(exc, RecursionError)):
                 rep.viol.append(('C05', 'C05:duplicate-rejected-with-%s:%s' % (type(exc).__name__, sigtail), desc))
-            if eff.cls == LEGAL and kind in ('append', 'set_parent', 'insert', 'set_children', 'floordiv'):
+            # (assignments that replace members are left out: the code may refuse them for id clashes with the
+            #  very tasks being replaced, which C11 does not speak about)
+            if eff.cls == LEGAL and kind in ('append', 'set_parent', 'insert', 'floordiv'):
                 movers = [cop[2]] if kind in ('append', 'set_parent', 'insert') else [x for x in cop[2] if x is not None]
                 tgt = cop[1] if kind != 'set_parent' else cop[2]
                 tw = None
